@@ -232,6 +232,38 @@ func fastGet(s types.Store, k string) string {
 
 type finding struct{ key, what string }
 
+// flushProbe runs after the last step of a behaviour, on the real objects only: one more block that
+// writes an unrelated key and commits, then the scan again. Whatever an earlier step left staged
+// behind the model's back (a session that was abandoned but not discarded) becomes durable here and
+// is then served by the fast path; the verdict is still fast path vs tree walk on the real store.
+func (w *world) flushProbe() (f *finding, reads int) {
+	defer func() {
+		if r := recover(); r != nil && f == nil {
+			f = &finding{"C26:panic:flush-probe", fmt.Sprint(r)}
+		}
+	}()
+	if !w.up || !w.loadOK {
+		return nil, 0
+	}
+	rp := w.rawProj()
+	roots := rp["roots"].([]int64)
+	latest := int64(0)
+	if len(roots) > 0 {
+		latest = roots[len(roots)-1]
+	}
+	if w.st.LastCommitID().Version != latest {
+		return nil, 0 // the working tree sits on an older version: writing needs a reload first
+	}
+	w.st.Set(nil, []byte("p"), []byte("probe"))
+	w.commit()
+	roots = w.rawProj()["roots"].([]int64)
+	keys := w.cfg.Keys
+	w.cfg.Keys = append(append([]string{}, keys...), "p")
+	f, reads = w.scan(roots)
+	w.cfg.Keys = keys
+	return
+}
+
 func (w *world) scan(roots []int64) (f *finding, reads int) {
 	defer func() {
 		if r := recover(); r != nil && f == nil {
@@ -342,8 +374,9 @@ var loaderGate = map[string]string{"RStart": "iter:root", "RDiscover": "get:root
 type outcome struct {
 	viol  *finding
 	drift string
-	reads int
-	steps int
+	reads  int
+	steps  int
+	probes int
 }
 
 func replay(cfg config, beh []mbt.Step) (o outcome) {
@@ -473,6 +506,15 @@ func replay(cfg config, beh []mbt.Step) (o outcome) {
 			if !mbt.Eq(got, exp) {
 				o.drift = fmt.Sprintf("step %d %s: raw DB %s, model %s", i, act, mbt.JS(got), mbt.JS(exp))
 			}
+		}
+	}
+	if o.drift == "" {
+		f, n := w.flushProbe()
+		o.reads += n
+		o.probes++
+		if f != nil {
+			f.what += " (after the behaviour's last step one more block wrote an unrelated key and committed)"
+			o.viol = f
 		}
 	}
 	return
